@@ -1,0 +1,13 @@
+//go:build verif
+
+package message
+
+// Verification hooks for property C13 (decoding is total and bounded).
+// Add-only, compiled only with -tags verif.
+
+// VerifC13Buffered reports how many bytes pulled from the stream are still
+// unread in the message buffer (bytes consumed = bytes pulled - buffered).
+func (m *Message) VerifC13Buffered() int { return m.buffer.Len() }
+
+// VerifC13IsEOM reports whether the reader has seen the end-of-message frame.
+func (m *Message) VerifC13IsEOM() bool { return m.isEOM }
